@@ -703,6 +703,22 @@ Definition check_probe (tis : list tinfo) (lf : option N) (p : N * bool * list b
   | _, None => true
   end.
 
+(* exit_after / kill_after DO stop the actor: unless its handle was aborted, once the runtime has
+   run at / after the wheel deadline a kill_after has ended the target (whatever its state then:
+   Running, Draining, Stopping) and an exit_after has made it leave the active states.  Not
+   demanded of a target still parked in pre_start (a kill during startup is not reported) *)
+Definition check_due (parked : bool) (pts : list N) (o : obs) (ti : tinfo) : bool :=
+  if parked then true else
+  match ti_abort ti, first_ge pts (ceil_ms (ti_born ti + ti_dur ti)) with
+  | None, Some p =>
+      match ti_kind ti with
+      | KKill => match o_exit o with Some (_, te) => te <=? p | None => false end
+      | KExit => match o_left o with Some tl => tl <=? p | None => false end
+      | _ => true
+      end
+  | _, _ => true
+  end.
+
 (* an abort before the timer task's first poll prevents everything: nothing of that timer is ever
    handled and its handle reports the cancellation *)
 Definition check_fresh (ops : list op) (o : obs) (i : nat) : bool :=
@@ -718,4 +734,5 @@ Definition check_C12 (parked : bool) (ops : list op) (o : obs) : bool :=
   && check_all_res (o_log o) (o_exit o) (o_left o) 0 tis (o_res o)
   && check_exit ops tis (o_exit o)
   && forallb (check_probe tis (o_left o)) (o_probes o)
-  && forallb (check_fresh ops o) (seq 0 (length tis)).
+  && forallb (check_fresh ops o) (seq 0 (length tis))
+  && forallb (check_due parked (time_points ops 0) o) tis.
